@@ -199,8 +199,10 @@ func c06Setup(limit int) *c06Env {
 			s.hmsgs = append(s.hmsgs, m)
 			switch {
 			case in.FullName() == "google.api.HttpBody":
-				if m.Get(in.Fields().ByName("content_type")).String() == "" {
+				if ct := m.Get(in.Fields().ByName("content_type")).String(); ct == "" {
 					s.hseq = append(s.hseq, "P")
+				} else if len(s.hseq) == 0 && ct != c06UploadCT && ct != "application/json" && ct != "application/protobuf" {
+					s.hseq = append(s.hseq, "x"+hx([]byte("content_type " + ct))[1:])
 				} else {
 					s.hseq = append(s.hseq, hx(m.Get(in.Fields().ByName("data")).Bytes()))
 				}
@@ -285,6 +287,9 @@ func c06Gunzip(b []byte) ([]byte, bool) {
 	return out, err == nil
 }
 
+// the media type of plain HTTP uploads: parameters and letter case are part of it
+const c06UploadCT = "Application/Vnd.C06+Bin; charset=utf-8; boundary=xYz"
+
 var c06Paths = map[string][2]string{
 	"bidi": {"/c06/bidi", "/verif.c06.Ssvc/Bidi"}, "client": {"/c06/client", "/verif.c06.Ssvc/Client"},
 	"server": {"/c06/server", "/verif.c06.Ssvc/Server"}, "up": {"/c06/up", "/verif.c06.Ssvc/Up"},
@@ -322,6 +327,10 @@ func c06Run(o *out, input string) {
 			r.Header.Set("Content-Type", "application/json")
 		} else {
 			r.Header.Set("Content-Type", "application/protobuf")
+		}
+		if shape == "up" {
+			// an upload is a google.api.HttpBody: its content_type is the request's Content-Type as it was sent
+			r.Header.Set("Content-Type", c06UploadCT)
 		}
 		if gz {
 			r.Header.Set("Content-Encoding", "gzip")
